@@ -419,9 +419,10 @@ fn verify(w: &mut World, op: &Value) -> R<Value> {
     }
     w.bump("call.sm9.verify_sign");
     let h_limbs = glue::be_to_limbs(&sig[..32]);
+    let s_form = gs_opt(op, "s_form").unwrap_or("affine").to_string();
     let out = run_lib_norng(|| {
         let m = Sm9SignMasterKey { ks: [0, 0, 0, 0], ppubs: lib_twist(&ppubs)? };
-        let s = lib_point(&sig[32..])?;
+        let s = glue::sm9_point_form(&sig[32..], &s_form)?;
         m.verify_sign(&id, &msg, &h_limbs, &s).ok()
     });
     let (class, _) = classify(out);
@@ -437,14 +438,14 @@ fn verify(w: &mut World, op: &Value) -> R<Value> {
     w.check_class(&["C09", "C20"], "sm9.verify_sign", &class, input_class, case, "");
     let key = json!({"entry":"sm9.verify_sign","class":input_class,"outcome":class.as_str()});
     if class == Class::Ok {
-        let r = ref_verdict(&sig);
+        let r = s_form != "infinity" && ref_verdict(&sig);
         w.check("C09", "O9.5-sound", r, case, key, || {
             format!("library accepts what the reference verifier rejects: id={} msg={} sig={}", hex::encode(&id), hex::encode(&msg), hex::encode(&sig))
         });
         w.bump("probe.sm9.verify.accepted");
     } else {
         if ref_on_reject {
-            let r = ref_verdict(&sig);
+            let r = s_form != "infinity" && ref_verdict(&sig);
             w.check("C09", "O9.4-complete", !r, case, key, || {
                 format!("library rejects ({}) a signature the reference verifier accepts: id={} msg={} sig={}", class.as_str(), hex::encode(&id), hex::encode(&msg), hex::encode(&sig))
             });
@@ -640,7 +641,7 @@ fn kex_1b(w: &mut World, op: &Value) -> R<Value> {
     let case = fnv(&[b"sm9kex1b", &ppube, &ida, &idb, &ra, op.to_string().as_bytes()]);
     let pp = g1_unwire(&ppube).ok_or("kex: ppube wire")?;
     let de_ref = g2_unwire(&dew).ok_or("kex: de wire")?;
-    let ra_ref = rsm9::with(|p| p.g1_decode(&ra));
+    let ra_ref = if gs_opt(op, "ra_form") == Some("infinity") { None } else { rsm9::with(|p| p.g1_decode(&ra)) };
     let g = g_enc(&ppube).ok_or("kex: invalid Ppub-e")?;
     let ref_side = |r: &BigUint| -> Option<(Vec<u8>, Vec<u8>)> {
         let ra_pt = ra_ref.clone()?;
@@ -665,7 +666,7 @@ fn kex_1b(w: &mut World, op: &Value) -> R<Value> {
     let (out, log) = run_lib(&script, || {
         let m = Sm9EncMasterKey { ke: [0, 0, 0, 0], ppube: lib_point(&ppube)? };
         let key = Sm9EncKey { ppube: m.ppube, de: lib_twist(&dew)? };
-        let ra_pt = lib_point(&ra)?;
+        let ra_pt = glue::sm9_point_form(&ra, gs_opt(op, "ra_form").unwrap_or("affine"))?;
         gm_sm9::key::exch_step_1b(&m, &ida, &idb, &key, &ra_pt, klen).ok().map(|(rb, sk)| (rb.to_bytes_be(), sk))
     });
     let (class, res) = classify(out);
@@ -718,7 +719,7 @@ fn kex_2a(w: &mut World, op: &Value) -> R<Value> {
     let case = fnv(&[b"sm9kex2a", &ppube, &ida, &idb, &ra, &rb, &rsec]);
     let de_ref = g2_unwire(&dew).ok_or("kex: de wire")?;
     let r = BigUint::from_bytes_be(&rsec);
-    let rb_ref = rsm9::with(|p| p.g1_decode(&rb));
+    let rb_ref = if gs_opt(op, "rb_form") == Some("infinity") { None } else { rsm9::with(|p| p.g1_decode(&rb)) };
     let ra_ref = rsm9::with(|p| p.g1_decode(&ra));
     let g = g_enc(&ppube).ok_or("kex: invalid Ppub-e")?;
     let conform = op.get("conform").and_then(|v| v.as_bool()).unwrap_or(true) || gs(op, "impl")? == "ref";
@@ -740,7 +741,8 @@ fn kex_2a(w: &mut World, op: &Value) -> R<Value> {
     let out = run_lib_norng(|| {
         let m = Sm9EncMasterKey { ke: [0, 0, 0, 0], ppube: lib_point(&ppube)? };
         let key = Sm9EncKey { ppube: m.ppube, de: lib_twist(&dew)? };
-        gm_sm9::key::exch_step_2a(&m, &ida, &idb, &key, r_limbs, &lib_point(&ra)?, &lib_point(&rb)?, klen).ok()
+        let rb_pt = glue::sm9_point_form(&rb, gs_opt(op, "rb_form").unwrap_or("affine"))?;
+        gm_sm9::key::exch_step_2a(&m, &ida, &idb, &key, r_limbs, &lib_point(&ra)?, &rb_pt, klen).ok()
     });
     let (class, sk) = classify(out);
     let ic = if rb_ref.is_some() { "R_B on curve" } else { "R_B invalid" };
